@@ -213,7 +213,7 @@ func (cfg *Config) paramExp(pe *syntax.ParamExp) (string, error) {
 		}
 		str = join(elems)
 	case pe.Exp != nil:
-		arg, err := Literal(cfg, pe.Exp.Word)
+		arg, err := cfg.expArg(pe.Exp)
 		if err != nil {
 			return "", err
 		}
@@ -362,7 +362,7 @@ func (cfg *Config) perElemOps(pe *syntax.ParamExp, elems []string) ([]string, er
 	case pe.Repl != nil:
 		return cfg.replaceElems(pe.Repl, elems)
 	case pe.Exp != nil:
-		arg, err := Literal(cfg, pe.Exp.Word)
+		arg, err := cfg.expArg(pe.Exp)
 		if err != nil {
 			return nil, err
 		}
@@ -376,6 +376,20 @@ func (cfg *Config) perElemOps(pe *syntax.ParamExp, elems []string) ([]string, er
 		}
 	}
 	return elems, nil
+}
+
+// expArg expands the argument of a ${var<op>arg} expansion: as a pattern for
+// the operators which match one, keeping escaped and quoted characters
+// literal, and as a plain string for the rest.
+func (cfg *Config) expArg(exp *syntax.Expansion) (string, error) {
+	switch exp.Op {
+	case syntax.RemSmallPrefix, syntax.RemLargePrefix,
+		syntax.RemSmallSuffix, syntax.RemLargeSuffix,
+		syntax.UpperFirst, syntax.UpperAll,
+		syntax.LowerFirst, syntax.LowerAll:
+		return Pattern(cfg, exp.Word)
+	}
+	return Literal(cfg, exp.Word)
 }
 
 // replaceElems applies a ${var/pattern/repl} replacement to each element.
